@@ -174,6 +174,47 @@ def r4_enumerator(ctx, rep, R='C19.R4'):
     rep.check(ok, R, 'enumerate(): one ThreadProxy for every ident in sys._current_frames()', why,
               key='enumerate:shape', func='threadsupport.enumerate',
               where=ctx.where(fi, fi.node) if fi else 'threadsupport')
+    # the ident -> Thread table is a picture of THIS moment: thread idents are re-used by the OS,
+    # so a table that outlives the call can hand out the finished Thread object of an earlier
+    # thread for a running one (is_alive() False: the leak is never reported)
+    if fi is not None:
+        stored = {n.id for n in ast.walk(fi.node) if isinstance(n, ast.Name) and
+                  isinstance(n.ctx, (ast.Store, ast.Del))}
+        glob = {nm for n in ast.walk(fi.node) if isinstance(n, (ast.Global, ast.Nonlocal)) for nm in n.names}
+        lookups = []
+        for n in ast.walk(fi.node):
+            # tables subscripted / .get() / "in"-tested with a plain key inside enumerate()
+            if isinstance(n, ast.Subscript) and isinstance(n.ctx, ast.Load) and isinstance(n.value, (ast.Name, ast.Attribute)):
+                lookups.append(n.value)
+            if isinstance(n, ast.Call) and isinstance(n.func, ast.Attribute) and n.func.attr in ('get', 'setdefault', 'update') \
+                    and isinstance(n.func.value, (ast.Name, ast.Attribute)):
+                lookups.append(n.func.value)
+        stale = []
+        for t in lookups:
+            root = t
+            while isinstance(root, ast.Attribute):
+                root = root.value
+            if not isinstance(root, ast.Name):
+                continue
+            if isinstance(t, ast.Name) and t.id in stored and t.id not in glob:
+                continue                      # a local of this call
+            if isinstance(t, ast.Name) and t.id in ('sys', 'threading'):
+                continue
+            # module-level constant tables that are never mutated are fine; a mutable one is a cache
+            mutated = any(isinstance(c, ast.Call) and isinstance(c.func, ast.Attribute) and
+                          norm(c.func.value) == norm(t) and
+                          c.func.attr in ('update', 'setdefault', '__setitem__', 'pop', 'clear')
+                          for c in ast.walk(fi.node)) or any(
+                isinstance(x, ast.Subscript) and isinstance(x.ctx, (ast.Store, ast.Del)) and
+                norm(x.value) == norm(t) for x in ast.walk(fi.node))
+            if mutated or isinstance(root, ast.Name) and root.id in ('self', 'enumerate'):
+                stale.append(norm(t))
+        rep.check(not stale, R, 'enumerate(): the ident -> Thread table is built afresh in every call',
+                  'enumerate() looks threads up in %s, a table that lives longer than the call and is '
+                  'only ever added to: when the OS re-uses the ident of a finished thread, the old '
+                  '(dead) Thread object is returned for the running one and the leak is not reported'
+                  % sorted(set(stale)), key='enumerate:fresh-table', func='threadsupport.enumerate',
+                  where=ctx.where(fi, fi.node))
     tp = m.cls('threadsupport.ThreadProxy')
     eq = tp.methods.get('__eq__')
     okeq = False
